@@ -21,6 +21,24 @@ def walk : Subst → Term → Term
     | .var w => if w = v then u else .var w
     | t' => t'
 
+mutual
+  /-- no variable occurs in the term -/
+  def groundT : Term → Bool
+    | .var _ => false
+    | .app _ as => groundA as
+    | _ => true
+  def groundA : Args → Bool
+    | .nil => true
+    | .cons t ts => groundT t && groundA ts
+end
+
+/-- `Denotes σ t l`: under the substitution `σ` the term `t` is the list `l` of ground elements
+    (every list cell and the final `[]` are reached by dereferencing) -/
+inductive Denotes (σ : Subst) : Term → List Term → Prop
+  | nil {t : Term} : walk σ t = Term.nilT → Denotes σ t []
+  | cons {t h tl : Term} {l : List Term} :
+      walk σ t = Term.consT h tl → groundT h = true → Denotes σ tl l → Denotes σ t (h :: l)
+
 /-- outcome of a computation that may run out of fuel -/
 inductive Fuel (α : Type) where
   | out                -- not enough fuel
